@@ -12,7 +12,7 @@ EXPLANATION = (
     "in order), HeaderIter hands out every map entry with the name of its group, into_request_parts / into_response_parts "
     "build the http types from exactly those slots and the field map unchanged; (s) segmentation - the C02 rules (exact "
     "consumption, truncation, memo, end of stream) because a message survives re-chunking only if frame boundaries do; (q) "
-    "sequence - the C03 body/end-of-body/trailers tables (one clean end of message, trailers kept); (v) field validation and "
+    "sequence - the C03 body/end-of-body/trailers tables and the split rule (one clean end of message, trailers kept, also across split()); (v) field validation and "
     "sending order - C12-a/C12-d; (w) writer - C14-a/b/e (frame kept whole, declared length = payload, header/payload cursor "
     "under partial writes); (t) transport adapter - C17-a/b (every accepted buffer written completely, in order, kept across "
     "Pending). Sub-rules of other properties run through a filtering proxy and are reported under C01-s/q/v/w/t with their "
@@ -20,7 +20,7 @@ EXPLANATION = (
     "does not prove fidelity.")
 EXTRA_CONFIGS = ["h3-plain"]
 RULES = ("C01-f field mapping: pseudo-header writer/reader tables agree, append not insert, iterator, into_*_parts flows (A11/A4/A3); "
-         "C01-s = C02-a..g; C01-q = C03-body, C03-eob, C03-trl; C01-v = C12-a, C12-d; C01-w = C14-a, C14-b, C14-e; C01-t = C17-a, C17-b "
+         "C01-s = C02-a..g; C01-q = C03-body, C03-eob, C03-trl, C03-split; C01-v = C12-a, C12-d; C01-w = C14-a, C14-b, C14-e; C01-t = C17-a, C17-b "
          "(re-used through a filtering proxy)")
 
 META = {
@@ -186,7 +186,7 @@ def run(ctx):
             ctx.check(ok, "C01-f", k, "the caller's field map is taken as it is", "%s stores %s as fields" % (k, [fl.fmt(f.origin(ru.field_op(s_, "fields"))) for _, s_ in ags]), "")
     # ------------------------------------------------------------------ clauses shared with other properties
     _c02.run(Proxy(ctx, ("C02-",), "C01-s"))
-    _c03.run(Proxy(ctx, ("C03-body", "C03-eob", "C03-trl"), "C01-q"))
+    _c03.run(Proxy(ctx, ("C03-body", "C03-eob", "C03-trl", "C03-split"), "C01-q"))
     _c12.run(Proxy(ctx, ("C12-a", "C12-d"), "C01-v"))
     _c14.run(Proxy(ctx, ("C14-a", "C14-b", "C14-e"), "C01-w"))
     _c17.run(Proxy(ctx, ("C17-a", "C17-b"), "C01-t"))
